@@ -890,6 +890,33 @@ type monCtx struct {
 	run    *hx.Run
 	w      *world
 	replay []string
+	// names seen in this case, by lower-cased form; caseVariant is set once two spellings of one name met
+	spell       map[string]string
+	caseVariant bool
+	// idMoved: the update being checked hands the UUID of a stored node to another node while the
+	// previous holder is itself part of the snapshot (history shape of one known finding)
+	idMoved bool
+}
+
+func (m *monCtx) note(names ...string) {
+	if m.spell == nil {
+		m.spell = map[string]string{}
+	}
+	for _, n := range names {
+		if o, ok := m.spell[lc(n)]; ok && o != n {
+			m.caseVariant = true
+		}
+		m.spell[lc(n)] = n
+	}
+}
+
+func (m *monCtx) noteInsts(is []inst) {
+	for _, i := range is {
+		m.note(i.node.name, i.svc.sid, i.svc.name)
+		for _, k := range i.chks {
+			m.note(k.node, k.cid, k.sid, k.sname)
+		}
+	}
 }
 
 var sigCount = map[string]int{}
@@ -904,7 +931,21 @@ func report(run *hx.Run, sig, desc string, replay []string) {
 	}
 }
 
-func (m *monCtx) violate(sig, desc string) { report(m.run, sig, desc, m.replay) }
+func (m *monCtx) violate(sig, desc string) {
+	if m.caseVariant {
+		// one history shape, whatever monitor notices it: the importer keys its Go maps by exact spelling,
+		// the state store by lower-cased names
+		desc = "[" + sig + "] " + desc
+		sig = "import:names-differing-only-in-case"
+	} else if m.idMoved {
+		switch sig {
+		case "import:received-instance-missing", "import:received-check-missing", "import:node-left-without-instances":
+			desc = "[" + sig + "] " + desc
+			sig = "import:node-id-moved-between-snapshot-nodes"
+		}
+	}
+	report(m.run, sig, desc, m.replay)
+}
 
 // every command the importer sends for peer p carries peer p
 func (m *monCtx) monCalls(p string, cs []call) {
@@ -950,9 +991,15 @@ func (m *monCtx) monExact(p, name string, is []inst, before []csnView) {
 	for _, v := range after {
 		got[v.node.name+"\x00"+v.svc.sid] = v
 	}
-	hadNode := map[string]bool{} // node carried an instance of this service before the update
+	hadNode := map[string]bool{}      // node carried an instance of this service before the update
+	hadInst := map[string]bool{}      // (node, id) was an instance of this service before the update
+	chkOwner := map[string]string{}   // node/check id -> service id it was attached to in the view before
 	for _, v := range before {
 		hadNode[v.node.name] = true
+		hadInst[v.node.name+"\x00"+v.svc.sid] = true
+		for _, c := range v.chks {
+			chkOwner[v.node.name+"\x00"+c.cid] = c.sid
+		}
 	}
 	for k, i := range want {
 		v, ok := got[k]
@@ -980,6 +1027,10 @@ func (m *monCtx) monExact(p, name string, is []inst, before []csnView) {
 		}
 		for cid, c := range wantK {
 			if g, ok := gotK[cid]; !ok {
+				if o, was := chkOwner[i.node.name+"\x00"+cid]; was && o != c.sid && o != "" {
+					m.violate("import:check-id-moved-between-instances", fmt.Sprintf("peer %s service %s: check %s on %s moved from instance %s to %s in the snapshot and is deleted", p, name, cid, i.node.name, o, c.sid))
+					continue
+				}
 				m.violate("import:received-check-missing", fmt.Sprintf("peer %s service %s: check %s on %s of the snapshot is not in the catalog", p, name, cid, i.node.name))
 			} else if g != c {
 				m.violate("import:check-differs-from-snapshot", fmt.Sprintf("peer %s service %s: check %+v, snapshot has %+v", p, name, g, c))
@@ -994,6 +1045,8 @@ func (m *monCtx) monExact(p, name string, is []inst, before []csnView) {
 				m.violate("import:stale-node-check:node-new-to-service", fmt.Sprintf("peer %s service %s: node check %s on %s is absent from the snapshot but stays (the node carried no instance of the service before)", p, name, cid, i.node.name))
 			case c.sid == "":
 				m.violate("import:stale-node-check:instance-id-replaced", fmt.Sprintf("peer %s service %s: node check %s on %s is absent from the snapshot but stays (the stored instance on the node had another id)", p, name, cid, i.node.name))
+			case !hadInst[k]:
+				m.violate("import:stale-service-check:instance-id-taken-from-other-service", fmt.Sprintf("peer %s service %s: service check %s on %s/%s is absent from the snapshot but stays (the instance id belonged to another service of the peer before)", p, name, cid, i.node.name, i.svc.sid))
 			default:
 				m.violate("import:stale-service-check", fmt.Sprintf("peer %s service %s: service check %s on %s is absent from the snapshot but stays", p, name, cid, i.node.name))
 			}
@@ -1004,6 +1057,31 @@ func (m *monCtx) monExact(p, name string, is []inst, before []csnView) {
 			m.violate("import:absent-instance-not-removed", fmt.Sprintf("peer %s service %s: instance %s/%s is not in the snapshot but stays in the catalog", p, name, v.node.name, v.svc.sid))
 		}
 	}
+}
+
+// nodeIDs: UUID -> node name for the peer's nodes
+func (m *monCtx) nodeIDs(p string) map[string]string {
+	ns, _, _ := m.w.f.State().VerifC17Catalog()
+	out := map[string]string{}
+	for _, n := range ns {
+		if n.PeerName == p && n.ID != "" {
+			out[string(n.ID)] = n.Node
+		}
+	}
+	return out
+}
+
+func idMoved(idsBefore map[string]string, is []inst) bool {
+	inSnap := map[string]bool{}
+	for _, i := range is {
+		inSnap[i.node.name] = true
+	}
+	for _, i := range is {
+		if o, ok := idsBefore[i.node.id]; ok && i.node.id != "" && o != i.node.name && inSnap[o] {
+			return true
+		}
+	}
+	return false
 }
 
 type pRow struct {
@@ -1070,7 +1148,7 @@ type caseCfg struct {
 	caseMode, ids, flatten, arbitrary bool
 }
 
-func genPrior(r *hx.RNG, run *hx.Run, w *world, u universe, importPeer string, ids bool) []string {
+func genPrior(r *hx.RNG, run *hx.Run, w *world, u universe, importPeer string, ids bool, compare bool, mon *monCtx) []string {
 	var ops []string
 	peers := []string{"", "", "p2", "p10", importPeer}
 	n := 2 + r.Intn(7)
@@ -1097,7 +1175,15 @@ func genPrior(r *hx.RNG, run *hx.Run, w *world, u universe, importPeer string, i
 			sv = fmt.Sprintf("%s;%s;%d", hx.EncS(s.sid), hx.EncS(s.name), s.port)
 		}
 		op := fmt.Sprintf("reg %s %s %s %s %s %s", hx.EncS(peer), hx.EncS(nd.name), hx.EncS(nd.id), hx.EncS(nd.addr), sv, encChkDefs(ks))
-		run.Line(op, errEnum(err))
+		if compare {
+			run.Line(op, errEnum(err))
+		}
+		if mon != nil {
+			mon.noteInsts([]inst{{node: nd, chks: ks}})
+			if s != nil {
+				mon.note(s.sid, s.name)
+			}
+		}
 		ops = append(ops, op)
 		if peer == "" {
 			run.Tag("prior:local-row")
@@ -1117,6 +1203,7 @@ func genArbitrary(r *hx.RNG, u universe, name string, ids bool) []inst {
 	var out []inst
 	nodes := map[string]nodeDef{}
 	nchk := map[string][]chkDef{}
+	used := map[string]bool{}
 	n := r.Intn(4)
 	for k := 0; k < n; k++ {
 		nn := hx.Pick(r, u.nodes)
@@ -1128,7 +1215,8 @@ func genArbitrary(r *hx.RNG, u universe, name string, ids bool) []inst {
 			}
 			nodes[lc(nn)] = nd
 			for _, c := range u.ncids {
-				if r.Chance(25) {
+				if r.Chance(25) && !used[lc(nn)+"/"+lc(c)] {
+					used[lc(nn)+"/"+lc(c)] = true
 					nchk[lc(nn)] = append(nchk[lc(nn)], chkDef{nd.name, c, "", "", hx.Pick(r, statuses)})
 				}
 			}
@@ -1136,10 +1224,15 @@ func genArbitrary(r *hx.RNG, u universe, name string, ids bool) []inst {
 		it := inst{node: nd, svc: svcDef{hx.Pick(r, u.sids), name, hx.Pick(r, ports)}}
 		it.chks = append(it.chks, nchk[lc(nn)]...)
 		for _, c := range u.scids {
-			if r.Chance(25) {
+			if r.Chance(25) && !used[lc(nn)+"/"+lc(c)] {
+				used[lc(nn)+"/"+lc(c)] = true
 				it.chks = append(it.chks, chkDef{nd.name, c, it.svc.sid, name, hx.Pick(r, statuses)})
 			}
 		}
+		if used[lc(nn)+"//"+lc(it.svc.sid)] {
+			continue // one instance per (node, id)
+		}
+		used[lc(nn)+"//"+lc(it.svc.sid)] = true
 		out = append(out, it)
 	}
 	return out
@@ -1212,17 +1305,20 @@ func runImportCase(run *hx.Run, r *hx.RNG, cfg caseCfg) {
 	u := mkUniverse(cfg.caseMode)
 	p := hx.Pick(r, []string{"p1", "p1", "p1", "p2"})
 	var hist []string
+	compare := !cfg.caseMode // names differing only in case: monitors only (outside the model's domain)
 	emit := func(op, out string) {
-		run.Line(op, out)
+		if compare {
+			run.Line(op, out)
+		}
 		hist = append(hist, op)
 	}
+	mon := &monCtx{run: run, w: w}
 	emit("reset", "ok")
-	hist = append(hist, genPrior(r, run, w, u, p, cfg.ids)...)
+	hist = append(hist, genPrior(r, run, w, u, p, cfg.ids, compare, mon)...)
 	x := &exporter{u: u, ids: cfg.ids}
 	for k := 2 + r.Intn(4); k > 0; k-- {
 		x.addInst(r, hx.Pick(r, u.svcs))
 	}
-	mon := &monCtx{run: run, w: w}
 	nontrivial := false
 	nmsg := 3 + r.Intn(6)
 	for k := 0; k < nmsg; k++ {
@@ -1233,6 +1329,7 @@ func runImportCase(run *hx.Run, r *hx.RNG, cfg caseCfg) {
 		}
 		othersBefore := w.others(p)
 		nodesB, svcsB, onB := mon.peerState(p)
+		idsB := mon.nodeIDs(p)
 		if r.Chance(18) {
 			// exported-service list
 			names := x.names()
@@ -1245,6 +1342,7 @@ func runImportCase(run *hx.Run, r *hx.RNG, cfg caseCfg) {
 				names = nil
 				run.Tag("list:empty")
 			}
+			mon.note(names...)
 			res := w.sendList(p, names)
 			op := fmt.Sprintf("list %s %s", hx.EncS(p), hx.EncSList(names))
 			emit(op, resLine(res))
@@ -1283,6 +1381,8 @@ func runImportCase(run *hx.Run, r *hx.RNG, cfg caseCfg) {
 		wf := wellFormed(name, is)
 		shapeTags(run, w, p, name, is)
 		before, _ := w.csn(p, name)
+		mon.note(name)
+		mon.noteInsts(is)
 		res := w.sendService(p, name, is)
 		ordered := orderByCalls(is, res.calls)
 		op := fmt.Sprintf("upd %s %s %s", hx.EncS(p), hx.EncS(name), encInsts(ordered))
@@ -1295,10 +1395,12 @@ func runImportCase(run *hx.Run, r *hx.RNG, cfg caseCfg) {
 		if after := w.others(p); after != othersBefore {
 			mon.violate("import:foreign-rows-modified:update", fmt.Sprintf("an update of %s for peer %s changed rows of another peer or local rows:\n-- before\n%s\n-- after\n%s", name, p, othersBefore, after))
 		}
+		mon.idMoved = idMoved(idsB, is)
 		if res.status == "ok" && wf {
 			mon.monExact(p, name, is, before)
 			mon.monNodes(p, nodesB, onB)
 		}
+		mon.idMoved = false
 		run.Tag("msg:upd-" + kind)
 		run.Tag("result:" + res.status)
 		if !wf {
@@ -1314,6 +1416,12 @@ func runImportCase(run *hx.Run, r *hx.RNG, cfg caseCfg) {
 	}
 	mode := fmt.Sprintf("mode:case=%v,ids=%v,flatten=%v,arbitrary=%v", cfg.caseMode, cfg.ids, cfg.flatten, cfg.arbitrary)
 	run.Tag(mode)
+	if cfg.caseMode {
+		run.Tag("stream:case-variant-names(monitors-only)")
+		if mon.caseVariant {
+			run.Tag("stream:case-variant-collision-met")
+		}
+	}
 	run.Case(strings.Join(hist, "\n"), nontrivial)
 	run.Sample(map[string]any{"ops": hist[:min(len(hist), 12)]})
 }
@@ -1330,7 +1438,7 @@ func runMalformed(run *hx.Run, r *hx.RNG) {
 		hist = append(hist, op)
 	}
 	emit("reset", "ok")
-	hist = append(hist, genPrior(r, run, w, u, p, false)...)
+	hist = append(hist, genPrior(r, run, w, u, p, false, true, nil)...)
 	name := hx.Pick(r, u.svcs)
 	// a valid import first, so that there is something to damage
 	x := &exporter{u: u}
